@@ -12,7 +12,7 @@
    refinement (`_chiral_morgan`) is not covered by theorems: search in harness/checks/C01.py. *)
 From Coq Require Import ZArith List Bool Permutation Sorting.Sorted String.
 From Model Require Import PyBase PyHash Graph Morgan Stereo StereoRegistry Writer ChiralMorgan.
-From Proofs Require Import MorganProofs WriterInvProofs WriterStereoExt BfsExt BfsExt2 TraverseOrderExt InsertionOrderExt InsertionOrderExt2 ChiralMorganProofs StereoProofs StereoOrderExt StereoOrderExt2 RegistryRemapExt EnvLaws CtMapOrderExt AllStereoExt SameStereo EqHashExt.
+From Proofs Require Import MorganProofs WriterInvProofs WriterStereoExt BfsExt BfsExt2 TraverseOrderExt InsertionOrderExt InsertionOrderExt2 ChiralMorganProofs StereoProofs StereoOrderExt StereoOrderExt2 RegistryRemapExt EnvLaws CtMapOrderExt AllStereoExt SameStereo EqHashExt ChiralDiscreteExt.
 Import ListNotations.
 Open Scope Z_scope.
 
@@ -791,3 +791,47 @@ Theorem C01_eq_hash_nostereo_structure_only :
   mol_eq (canon_of o) d' d = true /\ mol_hash (canon_of o) str_hash d' = mol_hash (canon_of o) str_hash d.
 Proof. exact eq_hash_nostereo_structure_only. Qed.
 Print Assumptions C01_eq_hash_nostereo_structure_only.
+
+(* ---- end to end from the molecule alone ---- *)
+(* when the stereo elements carry pairwise different labels (in particular when the classes are discrete) every group of equal stereo
+   elements is a singleton and `_chiral_morgan` returns its input for EVERY iteration order of its three sets *)
+Theorem C01_chiral_morgan_order_independent_discrete : forall (h : list Z -> Z) (g : mol) (tabs : cmtabs) (ao : labels) (ord : cmorders),
+  distinct_stereo_labels ao ord -> chiral_morgan h g tabs ao ord = Ok (ao, []).
+Proof. exact chiral_morgan_discrete. Qed.
+Print Assumptions C01_chiral_morgan_order_independent_discrete.
+
+(* for EVERY hash function: g' is g renumbered by s AND re-inserted in any order with the same stereo labels, the classes of
+   atoms_order of g are discrete.  Then the Morgan model gives g' the renamed weights, `_chiral_morgan` returns these weights on both
+   sides whatever the iteration orders of its stereo sets, and the canonical strings with all stereo marks are identical (written
+   order mapped by s): the canonical string is a function of the structure alone.
+   _partial with respect to the coordinator's goal: discreteness is required of the CONSTITUTIONAL classes (atoms_order); molecules
+   whose classes only become discrete through the stereo refinement (where group[0] / flip-half could matter) are not covered *)
+Theorem C01_canonical_string_structure_only :
+  forall (h : list Z -> Z) (ring ring' : Z -> bool) (g g' : mol) (s tb tb' : Z -> Z) (o : opts)
+         (tabs tabs' : stabs) (ctabs ctabs' : cmtabs) (ord ord' : cmorders) (flipc : Z -> Z -> bool) (l : labels),
+  wf_mol (strip g) = true -> wf_mol (strip g') = true -> (forall x y, s x = s y -> x = y) -> s 0 = 0 ->
+  mol_perm (ren_mol s (strip g)) (strip g') -> (forall n, In n (ids g) -> ring' (s n) = ring n) -> o_mapping o = false ->
+  (forall x, is_H g x = false) -> (forall x, is_H g' x = false) ->
+  same_atom_stereo g g' s tabs tabs' -> same_ct_stereo g g' s tabs tabs' flipc ->
+  atoms_order h ring g = Ok l -> NoDup (map snd l) ->
+  distinct_stereo_labels l ord -> distinct_stereo_labels (ren_labels s l) ord' ->
+  atoms_order h ring' g' = Ok (ren_labels s l) /\
+  chiral_morgan h g ctabs l ord = Ok (l, []) /\
+  chiral_morgan h g' ctabs' (ren_labels s l) ord' = Ok (ren_labels s l, []) /\
+  smiles_text g' (lbl (ren_labels s l)) tb' o tabs' = map_order s (smiles_text g (lbl l) tb o tabs).
+Proof. exact canonical_string_structure_only. Qed.
+Print Assumptions C01_canonical_string_structure_only.
+
+(* == and hash of such molecules *)
+Theorem C01_canonical_eq_hash_structure_only :
+  forall (h : list Z -> Z) (str_hash : string -> Z) (ring ring' : Z -> bool) (g g' : mol) (s tb tb' : Z -> Z)
+         (o : opts) (tabs tabs' : stabs) (flipc : Z -> Z -> bool) (l : labels),
+  wf_mol (strip g) = true -> wf_mol (strip g') = true -> (forall x y, s x = s y -> x = y) -> s 0 = 0 ->
+  mol_perm (ren_mol s (strip g)) (strip g') -> (forall n, In n (ids g) -> ring' (s n) = ring n) -> o_mapping o = false ->
+  (forall x, is_H g x = false) -> (forall x, is_H g' x = false) ->
+  same_atom_stereo g g' s tabs tabs' -> same_ct_stereo g g' s tabs tabs' flipc ->
+  atoms_order h ring g = Ok l -> NoDup (map snd l) ->
+  let d := mkDesc g (lbl l) tb tabs in let d' := mkDesc g' (lbl (ren_labels s l)) tb' tabs' in
+  mol_eq (canon_of o) d' d = true /\ mol_hash (canon_of o) str_hash d' = mol_hash (canon_of o) str_hash d.
+Proof. exact canonical_eq_hash_structure_only. Qed.
+Print Assumptions C01_canonical_eq_hash_structure_only.
